@@ -141,7 +141,7 @@ func c36(c *rig.Ctx) {
 	srcDir := filepath.Join(root, "src")
 	cnt := newCounters()
 	l := &limiter{c: c, seen: map[string]int{}}
-	n := c.Pick(3, 150)
+	n := c.Pick(3, 40)
 
 	t0 := time.Now()
 	// ---- phase 1: build the source databases through SQL and snapshot them ---------------------------------------------
